@@ -300,7 +300,12 @@ def write_replay(path, vals, meta=None):
             f.write("%x\n" % v)
 
 def native_run(exe, entry, replay, timeout=60, env=None):
-    rc, out, err, secs = run([exe, entry, replay], timeout=timeout, env=env)
+    for attempt in range(4):
+        rc, out, err, secs = run([exe, entry, replay], timeout=timeout, env=env)
+        if rc != -998: break
+        time.sleep(1.0 + attempt)          # could not even start the process (fork/exec failure under load): retry
+    if rc == -998:
+        return "launch-error", None, "", err[-500:]
     cls = "crash rc=%d" % rc
     ident = None
     lines = out.strip().splitlines()
@@ -460,6 +465,9 @@ def validate_and_replay(prop, tier, tu, r, seed, nrand, replay_dir):
             rp = os.path.join(tdir, re.sub(r"\W", "_", tag) + ".rpl")
             write_replay(rp, v)
             c1, i1, o1, e1 = native_run(tu.native_cxx, entry, rp)
+            if c1 == "launch-error":
+                r.setdefault("native_launch_errors", 0); r["native_launch_errors"] += 1
+                continue
             if tag.startswith("witness"):
                 if c1 == "pass" and "cover=0" not in (i1 or ""):
                     wit_pass += 1; sample_vec = v
